@@ -1,1 +1,737 @@
+"""Link-level properties: C01 (conforming accepted), C02 (fault catalogue), C06 (link isolation),
+C07 (offsets / quoted bytes), C13 (ALPIDE frames), C20 (custom checks)."""
+import os, re, struct, json, shutil
+import fplib as L
+import fpgen as G
+from checks_unit import corr, report_dis
+from checks_scan import chain_walk, hdr_fields, flt_args, flt_token
+
+MODES = [('sanity', None), ('sanity', 'its'), ('all', None), ('all', 'its'), ('all', 'stave')]
+
+
+def mode_args(m):
+    cmd, tgt = m
+    return ['check', cmd] + ([] if tgt is None else ['its' if tgt == 'its' else 'its-stave'])
+
+
+def mode_tok(m):
+    cmd, tgt = m
+    return f'cmd={cmd} target={tgt or "none"}'
+
+
+def model_run(reqs):
+    out = []
+    for m in L.run_driver(reqs):
+        if m.startswith('PANIC') or m.startswith('INITERR') or m.startswith('INVALID') or m == 'bad-op':
+            out.append(dict(raw=m, exit=None, errors=None)); continue
+        head, rest = m.split(' errors=', 1)
+        kv = dict(t.split('=', 1) for t in head.split(' ') if '=' in t)
+        errs = sorted(tuple(t.split(':')[:2]) for t in rest.split(' | ')[0].split(' ') if t)
+        out.append(dict(raw=m, exit=int(kv['exit']), errors=errs, kv=kv,
+                        shown=[t for t in rest.split('| shown=')[1].split(' | ')[0].split(' ') if t] if '| shown=' in rest else []))
+    return out
+
+
+def impl_errs(r):
+    return sorted((str(e[0]), e[1]) for e in r.errors)
+
+
+def compare_model(ck, name, jobs, res, reqs):
+    """exact (offset, code) multiset + exit status, model vs implementation"""
+    model = model_run(reqs)
+    dis = []
+    for j, r, q, m in zip(jobs, res, reqs, model):
+        if m['errors'] is None:
+            if m['raw'].startswith('PANIC') and (r.exit not in (0, 1, 7)): continue
+            if m['raw'].startswith('INITERR') and r.exit == 1: continue
+            dis.append((0, q[:300], f'exit={r.exit}', m['raw'][:100])); continue
+        if r.stats is None:
+            dis.append((0, q[:300], f'no stats; exit={r.exit} {r.stderr[-200:]}', m['raw'][:100])); continue
+        if r.stats['error_stats']['fatal_error']: continue   # schedule dependent which errors precede the fatal one
+        if impl_errs(r) != m['errors'] or r.exit != m['exit']:
+            a, b = impl_errs(r), m['errors']
+            dis.append((0, q[:300], f'exit={r.exit} only_impl={[e for e in a if e not in b][:6]}', f'exit={m["exit"]} only_model={[e for e in b if e not in a][:6]}'))
+    ck.corr[name] = dict(cases=len(reqs), disagreements=len(dis))
+    return dis
+
+
+# =============================================================== C01
+def run_c01(ck, ctx):
+    R, tier = ctx['R'], ctx['tier']
+    n = 14 if tier == 'quick' else 400
+    jobs = []
+    for i in range(n):
+        if i % 5 == 4:   # packet counts around the batch size
+            pk, meta = G.conforming_stream(R, nlinks=R.randint(1, 3), max_hbf=R.choice([12, 25]), hits=False)
+            tgt = R.choice([99, 100, 101, 200])
+            if len(pk) >= tgt:
+                # cut at an HBF boundary at or after tgt is not conforming-preserving in general; keep whole stream
+                pass
+        else:
+            pk, meta = G.conforming_stream(R)
+        data = G.encode(pk)
+        for m in MODES:
+            for opt in ([], ['-m'], ['-E', '7']):
+                for via in ('file', 'pipe'):
+                    if tier == 'quick' and (i * 7 + len(opt) + (via == 'pipe')) % 3 and (opt or via == 'pipe'): continue
+                    jobs.append((i, meta, m, opt, via, data))
+
+    def job(j):
+        i, meta, m, opt, via, data = j
+        return L.run_cli(mode_args(m) + opt, data, via=via)
+    res = L.pmap(job, jobs)
+    reqs, cj, cr = [], [], []
+    for j, r in zip(jobs, res):
+        i, meta, m, opt, via, data = j
+        ck.case((i, m, tuple(opt), via))
+        ck.count(f'mode_{m[0]}_{m[1]}'); ck.count('layout_' + meta['mode']); ck.count(f'df{meta["df"]}_v{meta["ver"]}'); ck.count('npkts', meta['npkts'])
+        bad = []
+        if r.exit != 0: bad.append(f'exit={r.exit}')
+        if r.stats is None or r.stats['error_stats']['total_errors'] != 0 or r.stats['error_stats']['reported_errors'] or r.stats['error_stats']['fatal_error']:
+            bad.append('errors in statistics')
+        if 'ERROR' in L.ANSI.sub('', r.stderr): bad.append('ERROR on stderr')
+        if bad:
+            ck.violation('accept', {'what': 'conforming stream is not accepted cleanly', 'problems': bad, 'args': mode_args(m) + opt, 'via': via, 'meta': meta,
+                                    'errors': r.errors[:8], 'stderr': L.ANSI.sub('', r.stderr)[-600:], 'input_hex': data.hex()})
+        if via == 'file' and not opt:
+            reqs.append(f'run {mode_tok(m)} data={G.hexs(data)}'); cj.append(j); cr.append(r)
+    dis = compare_model(ck, 'run_conforming', cj, cr, reqs)
+    ck.sample(dict(meta=jobs[0][1], args=mode_args(jobs[0][2]), input_bytes=len(jobs[0][5])))
+    report_dis(ck, 'run_conforming', dis)
+
+
+# =============================================================== C02: fault catalogue
+FAM = {'rdh': ('E10',), 'run': ('E11',), 'ihw': ('E30',), 'tdh': ('E40',), 'tdt': ('E50',), 'ddw': ('E60',), 'data': ('E70',)}
+
+
+def word_positions(pk, pred):
+    """(packet index, word index) of words satisfying pred"""
+    return [(i, k) for i, p in enumerate(pk) for k, w in enumerate(p.words) if pred(p, k, w)]
+
+
+def woff(pk, i, k):
+    return G.offsets(pk)[i] + 64 + k * pk[i].slot()
+
+
+def set_word(pk, i, k, fn):
+    w = bytearray(pk[i].words[k]); fn(w); pk[i].words[k] = bytes(w)
+
+
+def faults(R):
+    """catalogue: name -> function(pk (already cloned), R) -> (offset, set of acceptable codes, its_only, running_only) or None"""
+    F = {}
+
+    def rdh_fault(field, val_fn, codes=('E10',), first_ok=False):
+        def f(pk, R):
+            cand = [i for i in range(len(pk)) if i > 0 or first_ok]
+            if not cand: return None
+            i = R.choice(cand)
+            pk[i].rdh[field] = val_fn(pk[i].rdh[field]) if callable(val_fn) else val_fn
+            return (G.offsets(pk)[i], set(codes), False, False)
+        return f
+    F['rdh_hsize'] = rdh_fault('hsize', 0x41)
+    F['rdh_fee_reserved'] = rdh_fault('fee', lambda v: v | 0x0080)
+    F['rdh_fee_stave48'] = rdh_fault('fee', lambda v: (v & ~0x3F) | 48)
+    F['rdh_prio'] = rdh_fault('prio', 1)
+    F['rdh_res0'] = rdh_fault('res0', 0x100)
+    F['rdh_version'] = rdh_fault('ver', lambda v: 13 - v)
+    F['rdh_dw'] = rdh_fault('dw', 2, first_ok=True)
+    F['rdh_df3'] = rdh_fault('df', 3, first_ok=True)
+    F['rdh_bc_dec'] = rdh_fault('bc', 0xdec, first_ok=True)
+    F['rdh_res1'] = rdh_fault('res1', 1, first_ok=True)
+    F['rdh_trig_spare'] = rdh_fault('trig', lambda v: v | (1 << 20), first_ok=True)
+    F['rdh_res2'] = rdh_fault('res2', 1, first_ok=True)
+    F['rdh_det_reserved'] = rdh_fault('det', lambda v: v | 0x1000, first_ok=True)
+    F['rdh_res3'] = rdh_fault('res3', 1, first_ok=True)
+
+    def sysid(pk, R):
+        i = R.randrange(1, len(pk)) if len(pk) > 1 else None
+        if i is None: return None
+        pk[i].rdh['sysid'] = 33
+        return (G.offsets(pk)[i], {'E10'}, True, False)
+    F['rdh_sysid_its'] = sysid
+
+    def run_fault(mut):
+        def f(pk, R):
+            cand = [i for i in range(2, len(pk)) if pk[i].rdh['page'] > 0 and pk[i].rdh['link'] == pk[i - 1].rdh['link'] or False]
+            # need the previous packet *of the same link*: use contiguous single-link tail
+            cand = [i for i in range(1, len(pk)) if pk[i].rdh['page'] > 0]
+            if not cand: return None
+            i = R.choice(cand)
+            mut(pk[i].rdh)
+            return (G.offsets(pk)[i], {'E11'}, False, True)
+        return f
+    F['run_page'] = run_fault(lambda r: r.update(page=r['page'] + 3))
+    F['run_orbit_changed'] = run_fault(lambda r: r.update(orbit=(r['orbit'] + 7) & 0xFFFFFFFF))
+    F['run_trigger_changed'] = run_fault(lambda r: r.update(trig=r['trig'] ^ 0x2))
+    F['run_stop2'] = run_fault(lambda r: r.update(stop=2))
+
+    def wfault(pred, mut, codes, running=False):
+        def f(pk, R):
+            pos = word_positions(pk, pred)
+            if not pos: return None
+            i, k = R.choice(pos)
+            set_word(pk, i, k, mut)
+            return (woff(pk, i, k), set(codes), True, running)
+        return f
+    isid = lambda idv: (lambda p, k, w: w[9] == idv)
+    F['ihw_reserved'] = wfault(isid(0xE0), lambda w: w.__setitem__(5, 0x20), {'E30'})
+    F['ihw_id'] = wfault(lambda p, k, w: w[9] == 0xE0 and k == 0, lambda w: w.__setitem__(9, 0xE1), {'E30', 'E990', 'E991', 'E992'})
+    F['tdh_reserved'] = wfault(isid(0xE8), lambda w: w.__setitem__(8, 1), {'E40'})
+    F['tdh_reserved_bit15'] = wfault(isid(0xE8), lambda w: w.__setitem__(1, w[1] | 0x80), {'E40'})
+    F['tdh_no_trigger'] = wfault(isid(0xE8), lambda w: (w.__setitem__(0, 0), w.__setitem__(1, w[1] & 0xE0)), {'E40'})
+    F['tdh_id'] = wfault(lambda p, k, w: w[9] == 0xE8 and k == 1, lambda w: w.__setitem__(9, 0xE9), {'E40', 'E990', 'E991', 'E992'})
+    F['tdt_reserved'] = wfault(isid(0xF0), lambda w: w.__setitem__(8, w[8] | 0x04), {'E50'})
+    F['tdt_reserved_hi'] = wfault(isid(0xF0), lambda w: w.__setitem__(7, w[7] | 0x01), {'E50'})
+    F['ddw0_reserved'] = wfault(isid(0xE4), lambda w: w.__setitem__(7, 1), {'E60'})
+    F['ddw0_index'] = wfault(isid(0xE4), lambda w: w.__setitem__(8, 0x10), {'E60'})
+    isdata = lambda p, k, w: (w[9] >> 5) in (1, 2)
+    F['data_id_invalid'] = wfault(isdata, lambda w: w.__setitem__(9, 0x5F if w[9] >> 5 == 2 else 0x2F), {'E70'})
+    F['data_connector7'] = wfault(lambda p, k, w: w[9] >> 5 == 2, lambda w: w.__setitem__(9, w[9] | 7), {'E73', 'E70'}, running=True)
+    # state dependent
+    F['tdh_orbit_mismatch'] = wfault(lambda p, k, w: w[9] == 0xE8 and k == 1 and not (w[1] & 0x40), lambda w: w.__setitem__(4, w[4] ^ 1), {'E444'}, running=True)
+    F['tdh_cont_after_ihw'] = wfault(lambda p, k, w: w[9] == 0xE8 and k == 1 and not (w[1] & 0x40), lambda w: w.__setitem__(1, w[1] | 0x40), {'E42'}, running=True)
+    F['tdh_cont_missing'] = wfault(lambda p, k, w: w[9] == 0xE8 and k == 1 and (w[1] & 0x40), lambda w: w.__setitem__(1, w[1] & ~0x40), {'E41'}, running=True)
+    F['tdh_cont_bc'] = wfault(lambda p, k, w: w[9] == 0xE8 and k == 1 and (w[1] & 0x40), lambda w: w.__setitem__(2, w[2] ^ 1), {'E441'}, running=True)
+    F['tdh_cont_orbit'] = wfault(lambda p, k, w: w[9] == 0xE8 and k == 1 and (w[1] & 0x40), lambda w: w.__setitem__(5, w[5] ^ 1), {'E442'}, running=True)
+    F['tdh_trigger_type_mismatch'] = wfault(lambda p, k, w: w[9] == 0xE8 and k == 1 and p.rdh['page'] == 0 and ((w[1] & 0x10) or (p.rdh['trig'] & 0x10)),
+                                            lambda w: w.__setitem__(0, w[0] ^ 0x4), {'E44'}, running=True)
+    F['tdh_bc_mismatch'] = wfault(lambda p, k, w: w[9] == 0xE8 and k == 1 and p.rdh['page'] == 0 and ((w[1] & 0x10) or (p.rdh['trig'] & 0x10)),
+                                  lambda w: w.__setitem__(2, w[2] ^ 1), {'E445'}, running=True)
+
+    def ddw0_stop(pk, R):
+        pos = word_positions(pk, isid(0xE4))
+        if not pos: return None
+        i, k = R.choice(pos)
+        pk[i].rdh['stop'] = 0
+        return (woff(pk, i, k), {'E110'}, True, True)
+    F['ddw0_stop_not_1'] = ddw0_stop
+
+    def ihw_stop(pk, R):
+        pos = [(i, k) for i, k in word_positions(pk, isid(0xE0)) if k == 0 and pk[i].rdh['stop'] == 0 and not (len(pk[i].words) > 1 and pk[i].words[1][1] & 0x40)]
+        if not pos: return None
+        i, k = R.choice(pos)
+        pk[i].rdh['stop'] = 1
+        return (woff(pk, i, k), {'E12'}, True, True)
+    F['ihw_with_stop'] = ihw_stop
+
+    def lane_inactive(pk, R):
+        pos = word_positions(pk, isdata)
+        if not pos: return None
+        i, k = R.choice(pos)
+        idb = pk[i].words[k][9]
+        lane = (idb & 31) if idb >> 5 == 1 else G.ob_lane(idb)
+        # governing IHW: the last IHW at or before (i,k) on the same link
+        link = pk[i].rdh['link']
+        for ii in range(i, -1, -1):
+            if pk[ii].rdh['link'] != link: continue
+            ks = [kk for kk, w in enumerate(pk[ii].words) if w[9] == 0xE0 and (ii < i or kk < k)]
+            if ks:
+                kk = ks[-1]
+                lanes = int.from_bytes(pk[ii].words[kk][:4], 'little') & ~(1 << lane)
+                pk[ii].words[kk] = struct.pack('<I', lanes) + pk[ii].words[kk][4:]
+                return (woff(pk, i, k), {'E71', 'E72'}, True, True)
+        return None
+    F['lane_not_active'] = lane_inactive
+
+    def bc_decreasing(pk, R):
+        # a TDH following a TDT with packet_done in the same page, with trigger_bc > 0
+        pos = [(i, k) for i, p in enumerate(pk) for k, w in enumerate(p.words)
+               if w[9] == 0xE8 and k >= 2 and p.words[k - 1][9] == 0xF0 and (p.words[k - 1][8] & 1)]
+        if not pos: return None
+        i, k = R.choice(pos)
+        # raise the previous TDH's bc above this one's: simpler to lower this one below the previous (previous TDH of this link)
+        prev = None
+        for kk in range(k - 1, -1, -1):
+            if pk[i].words[kk][9] == 0xE8: prev = pk[i].words[kk]; break
+        if prev is None: return None
+        pbc = (prev[2] | prev[3] << 8) & 0xFFF
+        if pbc == 0: return None
+        set_word(pk, i, k, lambda w: (w.__setitem__(2, (pbc - 1) & 0xFF), w.__setitem__(3, (w[3] & 0xF0) | ((pbc - 1) >> 8))))
+        return (woff(pk, i, k), {'E440'}, True, True)
+    F['tdh_bc_decreasing'] = bc_decreasing
+
+    def overpad(pk, R):
+        cand = [i for i, p in enumerate(pk) if p.fmt == 2 and p.words]
+        if not cand: return None
+        i = R.choice(cand)
+        pk[i].pad = 16 + ((-10 * len(pk[i].words)) % 16) % 16
+        pk[i].pad = max(16, pk[i].pad)
+        return (G.offsets(pk)[i], {'PAYLOAD'}, True, False)
+    F['padding_over_15'] = overpad
+    return F
+
+
+def run_c02(ck, ctx):
+    R, tier = ctx['R'], ctx['tier']
+    F = faults(R)
+    nstreams = 5 if tier == 'quick' else 60
+    jobs = []
+    for si in range(nstreams):
+        base, meta = G.conforming_stream(R, nlinks=R.randint(1, 3), max_hbf=3)
+        for name, fn in F.items():
+            for rep in range(1 if tier == 'quick' else 3):
+                pk = [p.clone() for p in base]
+                got = fn(pk, R)
+                if got is None: ck.count('not_applicable_' + name); continue
+                off, codes, its_only, running_only = got
+                data = G.encode(pk)
+                for m in MODES:
+                    active = (not its_only or m[1] is not None) and (not running_only or m[0] == 'all')
+                    jobs.append((si, name, m, off, codes, active, running_only, data, meta))
+
+    def job(j):
+        si, name, m, off, codes, active, running_only, data, meta = j
+        return L.run_cli(mode_args(m) + ['-E', '7'], data)
+    res = L.pmap(job, jobs)
+    reqs = []
+    RUNNING_CODES = {'E11', 'E12', 'E110', 'E111', 'E41', 'E42', 'E44', 'E440', 'E441', 'E442', 'E443', 'E444', 'E445', 'E45', 'E71', 'E72', 'E73', 'E81'}
+    for j, r in zip(jobs, res):
+        si, name, m, off, codes, active, running_only, data, meta = j
+        ck.case((si, name, m))
+        ck.count('fault_' + name)
+        reqs.append(f'run {mode_tok(m)} E=7 data={G.hexs(data)}')
+        if r.exit not in (0, 7) or r.stats is None:
+            key = 'stave-layer-or-alpide-panic' if m[1] == 'stave' and r.exit not in (0, 1, 7) else None
+            ck.violation('abnormal', {'what': 'faulted stream: abnormal termination', 'fault': name, 'args': mode_args(m), 'exit': r.exit,
+                                      'stderr': L.ANSI.sub('', r.stderr)[-500:], 'input_hex': data.hex()}, key=key)
+            continue
+        errs = r.errors
+        if active:
+            hit = [e for e in errs if e[0] == off and e[1] in codes]
+            if not hit or r.exit != 7:
+                ck.violation('undetected', {'what': 'documented violation not reported with its code family at the offending offset (or exit status not the any-errors code)',
+                                            'fault': name, 'args': mode_args(m) + ['-E', '7'], 'expected_offset': off, 'expected_codes': sorted(codes),
+                                            'errors_at_offset': [e for e in errs if e[0] == off][:6], 'all_errors': errs[:10], 'exit': r.exit, 'meta': meta, 'input_hex': data.hex()})
+        if m[0] == 'sanity':
+            bad = [e for e in errs if e[1] in RUNNING_CODES and not (e[1] in ('E72', 'E73') and m[1] == 'stave')]
+            if bad:
+                ck.violation('running_in_sanity', {'what': '`check sanity` reports a purely stateful (running) violation', 'fault': name, 'args': mode_args(m),
+                                                   'errors': bad[:6], 'input_hex': data.hex()})
+    dis = compare_model(ck, 'run_faulted', jobs, res, reqs)
+    ck.sample(dict(fault=jobs[3][1], args=mode_args(jobs[3][2]), expected_offset=jobs[3][3], expected_codes=sorted(jobs[3][4])))
+    report_dis(ck, 'run_faulted', dis)
+    # first-packet RDH0 fault (known finding F8)
+    base, meta = G.conforming_stream(R, nlinks=1, max_hbf=1)
+    pk = [p.clone() for p in base]; pk[0].rdh['res0'] = 1
+    data = G.encode(pk)
+    r = L.run_cli(['check', 'all', 'its', '-E', '7'], data)
+    ck.case(('first_rdh0',))
+    if not any(e[0] == 0 and e[1] == 'E10' for e in r.errors):
+        ck.violation('first_rdh0', {'what': 'RDH0 fault in the first packet of the input is not reported as [E10] at offset 0', 'exit': r.exit,
+                                    'stderr': L.ANSI.sub('', r.stderr)[-300:], 'input_hex': data.hex(), 'args': 'check all its -E 7'}, key='first-rdh0-gate')
+
+
+# =============================================================== C06
+def link_groups(data, key):
+    """offsets of packets per link (or FEE) and per-link extracted byte strings with offset maps"""
+    groups = {}
+    for o, h, p in chain_walk(data):
+        k = h[12] if key == 'link' else (h[2] | h[3] << 8)
+        g = groups.setdefault(k, dict(offs=[], data=b'', map={}))
+        g['map'][o] = len(g['data']); g['offs'].append((o, 64 + len(p))); g['data'] += h + p
+    return groups
+
+
+def owner(groups, off):
+    for k, g in groups.items():
+        for o, n in g['offs']:
+            if o <= off < o + n: return k, o
+    return None, None
+
+
+def run_c06(ck, ctx):
+    R, tier = ctx['R'], ctx['tier']
+    n = 6 if tier == 'quick' else 80
+    F = faults(R)
+    fnames = [k for k in F if not k.startswith('run_') and k not in ('rdh_version',)]
+    for si in range(n):
+        base, meta = G.conforming_stream(R, nlinks=R.randint(2, 5), max_hbf=3, mode=R.choice(['contig', 'rr', 'rand']))
+        pk = [p.clone() for p in base]
+        # corrupt one or two links
+        nf = R.choice([0, 1, 2, 3])
+        for _ in range(nf):
+            F[R.choice(fnames)](pk, R)
+        if pk[0].encode()[:8] != base[0].encode()[:8]: pk[0].rdh.update({k: base[0].rdh[k] for k in ('hsize', 'fee', 'prio', 'res0', 'ver')})
+        data = G.encode(pk)
+        for m in [('all', 'its'), ('all', 'stave'), ('sanity', 'its'), ('all', None)]:
+            key = 'fee' if m[1] == 'stave' else 'link'
+            groups = link_groups(data, key)
+            full = L.run_cli(mode_args(m), data)
+            ck.case((si, m)); ck.count(f'links_{len(groups)}'); ck.count('faults', nf)
+            if full.stats is None or full.exit not in (0,):
+                ck.violation('abnormal', {'what': 'multi-link run ended abnormally', 'exit': full.exit, 'stderr': L.ANSI.sub('', full.stderr)[-400:], 'args': mode_args(m),
+                                          'input_hex': data.hex()}, key='stave-layer-or-alpide-panic' if m[1] == 'stave' else None)
+                continue
+            per = {k: [] for k in groups}
+            for e in full.errors:
+                k, o = owner(groups, e[0])
+                per.setdefault(k, []).append(e)
+            for k, g in groups.items():
+                want = sorted((g['map'][owner(groups, e[0])[1]] + (e[0] - owner(groups, e[0])[1]), e[1], e[2]) for e in per.get(k, []))
+                # (a) physically extracted single-link file
+                alone = L.run_cli(mode_args(m), g['data'])
+                if alone.stats is None or alone.exit != 0:
+                    gate = 'Initial RDH0 deserialization failed sanity check' in alone.stderr
+                    ck.violation('extract', {'what': 'extracted single-link file is not processed', 'link': k, 'stderr': L.ANSI.sub('', alone.stderr)[-300:],
+                                             'input_hex': g['data'].hex()}, key='first-rdh0-gate' if gate else None)
+                    continue
+                got = sorted(alone.errors)
+                if got != want:
+                    ck.violation('isolation', {'what': 'errors of a link differ between the interleaved run and its extracted single-link file',
+                                               'link': k, 'key': key, 'args': mode_args(m), 'only_full(relocated)': [e for e in want if e not in got][:5],
+                                               'only_alone': [e for e in got if e not in want][:5], 'input_hex': data.hex()})
+                # (b) filter option
+                flt = ('link', k) if key == 'link' else ('fee', k)
+                filt = L.run_cli(mode_args(m) + flt_args(flt), data)
+                if filt.stats is not None and filt.exit == 0:
+                    gotf = sorted(e for e in filt.errors)
+                    wantf = sorted(per.get(k, []))
+                    if gotf != wantf:
+                        ck.violation('filter', {'what': 'errors of a link differ between the full run and the run with a filter selecting that link',
+                                                'link': k, 'args': mode_args(m) + flt_args(flt), 'only_full': [e for e in wantf if e not in gotf][:5],
+                                                'only_filtered': [e for e in gotf if e not in wantf][:5], 'input_hex': data.hex()})
+    ck.sample(dict(note='multi-link conforming streams with 0..3 planted faults, compared per link: full run vs extracted file vs filter'))
+    # in-process: one validator fed only its own packets vs the model
+    if ctx['harness_ok']:
+        for m, hargs, tok in [(('all', 'its'), ['check', 'all', 'its'], 'running=1 target=its'), (('all', 'stave'), ['check', 'all', 'its-stave'], 'running=1 target=stave'),
+                              (('sanity', 'its'), ['check', 'sanity', 'its'], 'running=0 target=its')]:
+            reqs = []
+            for si in range(n):
+                base, meta = G.conforming_stream(R, nlinks=R.randint(1, 3), max_hbf=2)
+                pk = [p.clone() for p in base]
+                for _ in range(R.choice([0, 1, 2])): F[R.choice(fnames)](pk, R)
+                data = G.encode(pk)
+                groups = {}
+                for o, h, p in chain_walk(data):
+                    k = (h[2] | h[3] << 8) if m[1] == 'stave' else h[12]
+                    groups.setdefault(k, []).append(f'{o}:{h.hex().upper()}:{G.hexs(p)}')
+                for k, toks in groups.items():
+                    reqs.append(f'link {tok} -- ' + ' '.join(toks))
+            impl = L.run_harness(reqs, hargs); model = L.run_driver(reqs)
+            dis = [(i, q[:200], a[:300], b[:300]) for i, (q, a, b) in enumerate(zip(reqs, impl, model))
+                   if a.strip() != b.strip() and not (a.startswith('PANIC') and b.startswith('PANIC'))]
+            ck.corr['link_' + m[0] + '_' + str(m[1])] = dict(cases=len(reqs), disagreements=len(dis))
+            report_dis(ck, 'link_' + m[0] + '_' + str(m[1]), dis)
+
+
+# =============================================================== C07
+def run_c07(ck, ctx):
+    R, tier = ctx['R'], ctx['tier']
+    n = 10 if tier == 'quick' else 150
+    jobs = []
+    for si in range(n):
+        base, meta = G.conforming_stream(R, nlinks=R.randint(1, 4), max_hbf=3)
+        pk = [p.clone() for p in base]
+        # arbitrary corruption that keeps the payload layout in agreement with the header's data format
+        for _ in range(R.randint(1, 12)):
+            i = R.randrange(len(pk))
+            if pk[i].words and R.random() < 0.7:
+                k = R.randrange(len(pk[i].words))
+                w = bytearray(pk[i].words[k])
+                if R.random() < 0.5: w[R.randrange(10)] ^= 1 << R.randrange(8)
+                else: w = bytearray(R.getrandbits(8) for _ in range(10))
+                if pk[i].fmt == 2 and k == 1 and w[:6] == bytes(6): w[0] = 1      # proviso: layout agrees with header
+                if pk[i].fmt == 2 and k == len(pk[i].words) - 1 and w[9] == 0xFF: w[9] = 0xFE
+                pk[i].words[k] = bytes(w)
+            elif i > 0:
+                f = R.choice(['res0', 'bc', 'page', 'stop', 'orbit', 'trig', 'det', 'prio'])
+                pk[i].rdh[f] = (pk[i].rdh[f] ^ (1 << R.randrange(12))) if f != 'stop' else R.choice([0, 1, 2])
+        data = G.encode(pk)
+        for m in [('all', 'its'), ('all', 'stave'), ('sanity', 'its'), ('all', None)]:
+            flts = [None]
+            l = pk[R.randrange(len(pk))].rdh
+            flts.append(('link', l['link']) if m[1] != 'stave' else ('stave', l['fee'] & 0x703F))
+            for flt in flts:
+                jobs.append((si, m, flt, data))
+
+    def job(j):
+        si, m, flt, data = j
+        return L.run_cli(mode_args(m) + flt_args(flt), data)
+    res = L.pmap(job, jobs)
+    reqs, cj, cr = [], [], []
+    for j, r in zip(jobs, res):
+        si, m, flt, data = j
+        ck.case((si, m, flt))
+        if r.stats is None or r.exit != 0:
+            ck.violation('abnormal', {'what': 'corrupted stream: abnormal termination', 'exit': r.exit, 'args': mode_args(m) + flt_args(flt),
+                                      'stderr': L.ANSI.sub('', r.stderr)[-400:], 'input_hex': data.hex()},
+                         key='stave-layer-or-alpide-panic' if m[1] == 'stave' else None)
+            continue
+        walk = chain_walk(data)
+        starts = {o: (h, p) for o, h, p in walk}
+        for msg, e in zip(r.stats['error_stats']['reported_errors'], r.errors):
+            off, code, word = e
+            ck.count('code_' + code)
+            prob = None
+            if off is None or off >= len(data): prob = 'offset outside the input'
+            elif code in ('E10', 'E11', 'PAYLOAD'):
+                if off not in starts: prob = 'RDH-level message not located at an RDH start'
+                else:
+                    mrow = re.search(r'current :\s+(.*?)\s+<--- Error', msg)
+                    if mrow:
+                        h = starts[off][0]; f = hdr_fields(h); toks = mrow.group(1)
+                        want = f'{f["ver"]:<6}{h[1]:<7}{f["fee"]:<7}{f["sysid"]:<6}{f["off"]:<8}{f["link"]:<6}{f["pkt"]:<10}{f["bc"]:<5}'
+                        if not toks.startswith(want.rstrip()[:20]): prob = 'quoted RDH row differs from the bytes at that offset'
+            elif word is not None:
+                own = [o for o in starts if o <= off < o + 64 + len(starts[o][1])]
+                if not own: prob = 'word offset not inside a packet'
+                else:
+                    o = own[0]; h = starts[o][0]; slot = 16 if h[24] == 0 else 10
+                    if off < o + 64 or (off - o - 64) % slot: prob = 'offset is not the start of a payload word'
+                    elif data[off:off + 10].hex().upper() != word: prob = 'quoted word bytes differ from the bytes at the offset'
+            else:
+                # frame-level / trigger period messages: offset of a TDH word (frame start) or of the current word
+                own = [o for o in starts if o <= off < o + 64 + len(starts[o][1])]
+                if not own: prob = 'offset not inside a packet'
+                else:
+                    o = own[0]; h = starts[o][0]; slot = 16 if h[24] == 0 else 10
+                    if off < o + 64 or (off - o - 64) % slot: prob = 'offset is not the start of a payload word'
+            if prob:
+                ck.violation('untruthful', {'what': prob, 'message': msg[:400], 'args': mode_args(m) + flt_args(flt), 'input_hex': data.hex()})
+        if flt is None:
+            reqs.append(f'run {mode_tok(m)} data={G.hexs(data)}'); cj.append(j); cr.append(r)
+    dis = compare_model(ck, 'run_corrupted', cj, cr, reqs)
+    report_dis(ck, 'run_corrupted', dis)
+    ck.sample(dict(note='every message of the real binary parsed and compared with the file bytes at its offset'))
+
+
+# =============================================================== C13
+def build_frame_stream(R, kind, lanes_spec, fmt=2, split=None):
+    """one HBF, one frame: lanes_spec = list of (id, lane bytes). returns pkts"""
+    layer = {'IB': 0, 'ML': 3, 'OL': 5}[kind]
+    fee = (layer << 12) | 5
+    lanes_mask = 0
+    for i, _ in lanes_spec:
+        lanes_mask |= 1 << ((i & 31) if kind == 'IB' else G.ob_lane(i))
+    words = []
+    streams = [(i, G.chunk9(b)) for i, b in lanes_spec]
+    while any(c for _, c in streams):
+        for i, c in streams:
+            if c: words.append(G.dw(i, c.pop(0)))
+    orbit = 77
+    pages, cur = [], [G.ihw(lanes_mask), G.tdh(trig=3, internal=0, bc=0, orbit=orbit)]
+    maxw = split or 100000
+    for w in words:
+        if len(cur) >= maxw - 1:
+            cur.append(G.tdt(0)); pages.append(cur); cur = [G.ihw(lanes_mask), G.tdh(trig=3, internal=0, bc=0, orbit=orbit, cont=1)]
+        cur.append(w)
+    cur.append(G.tdt(1)); pages.append(cur); pages.append([G.ddw0()])
+    return [G.Pkt(dict(fee=fee, link=2, orbit=orbit, trig=0x6a03, page=p, stop=1 if p == len(pages) - 1 else 0, df=fmt), ws, fmt=fmt) for p, ws in enumerate(pages)]
+
+
+def run_c13(ck, ctx):
+    R, tier = ctx['R'], ctx['tier']
+    n = 60 if tier == 'quick' else 1500
+    jobs = []
+    for si in range(n):
+        kind = R.choice(['IB', 'ML', 'OL'])
+        bc = R.randint(0, 255)
+        if kind == 'IB':
+            g = R.choice([0, 3, 6]); ids = [0x20 + g + i for i in range(3)]
+        elif kind == 'ML': ids = G.ML_IDS[:8] if R.random() < 0.5 else G.ML_IDS[8:]
+        else: ids = G.OL_IDS[:14] if R.random() < 0.5 else G.OL_IDS[14:]
+        variant = R.choice(['good', 'good', 'lane_missing', 'lane_extra', 'bad_group', 'bc_lane', 'bc_chip', 'chipid', 'empty_frame', 'fatal_lane', 'two_chips_ib'])
+        expect = set()
+        ids2 = list(ids)
+        if variant == 'lane_missing': ids2 = ids[:-1]; expect = {'E72' if kind == 'IB' else 'E73'}
+        if variant == 'lane_extra':
+            extra = [i for i in (G.IB_IDS if kind == 'IB' else G.OL_IDS) if i not in ids][0]; ids2 = ids + [extra]; expect = {'E72' if kind == 'IB' else 'E73'}
+        if variant == 'bad_group' and kind == 'IB': ids2 = [0x20, 0x21, 0x23]; expect = {'E72'}
+        spec = []
+        for j, i in enumerate(ids2):
+            lbc = bc
+            if variant == 'bc_lane' and j == 0: lbc = (bc + 1) & 0xFF; expect = {'E74' if kind == 'IB' else 'E75'}
+            if kind == 'IB':
+                cid = i & 0xF
+                if variant == 'chipid' and j == 0: cid = (cid + 1) & 0xF; expect = {'E74'}
+                b = G.alp_chip(R, cid, lbc, 10, empty=R.random() < 0.2)
+                if variant == 'two_chips_ib' and j == 0: b += G.alp_chip(R, (cid + 1) & 0xF, lbc, 2); expect = {'E74'}
+            else:
+                b = b''
+                base = R.choice([0, 8])
+                for c in range(7):
+                    cbc = lbc
+                    if variant == 'bc_chip' and j == 0 and c == 3: cbc = (lbc + 5) & 0xFF; expect = {'E75'}
+                    b += G.alp_chip(R, base + c, cbc, 3, empty=R.random() < 0.3)
+                    if R.random() < 0.2: b += b'\0' * R.randint(1, 3)
+            if variant == 'fatal_lane' and j == 1: b = bytes([0xF4]) + b
+            spec.append((i, b))
+        if variant == 'empty_frame': spec = []; expect = {'E701'}
+        if variant == 'fatal_lane': expect = set()     # one lane fewer is legal after a fatal APE … in *later* frames; this frame still has all lanes
+        pk = build_frame_stream(R, kind, spec, fmt=R.choice([0, 2]), split=R.choice([None, None, 12, 40]))
+        # hit-content twin: same skeleton, different hits -> same verdict and statistics
+        jobs.append((si, kind, variant, expect, G.encode(pk)))
+
+    def job(j):
+        return L.run_cli(['check', 'all', 'its-stave'], j[4])
+    res = L.pmap(job, jobs)
+    reqs = []
+    for j, r in zip(jobs, res):
+        si, kind, variant, expect, data = j
+        ck.case((si, kind, variant)); ck.count(f'{kind}_{variant}')
+        reqs.append(f'run cmd=all target=stave data={G.hexs(data)}')
+        if r.stats is None or r.exit != 0:
+            ck.violation('abnormal', {'what': 'stave check ended abnormally', 'exit': r.exit, 'variant': variant, 'stderr': L.ANSI.sub('', r.stderr)[-400:],
+                                      'input_hex': data.hex()}, key='stave-layer-or-alpide-panic')
+            continue
+        codes = {e[1] for e in r.errors}
+        frame_start = 64 + 10 * 1 if data[24] != 0 else 64 + 16
+        if variant == 'fatal_lane':
+            continue
+        if variant in ('good',) and codes:
+            ck.violation('false_alarm', {'what': 'a conforming readout frame is reported', 'kind': kind, 'errors': r.errors[:5], 'input_hex': data.hex()})
+        for c in expect:
+            if not any(e[1] == c and e[0] == frame_start for e in r.errors):
+                ck.violation('frame_rule', {'what': 'broken frame rule not reported with its code at the frame start offset', 'kind': kind, 'variant': variant,
+                                            'expected': c, 'frame_start': frame_start, 'errors': r.errors[:6], 'input_hex': data.hex()})
+    dis = compare_model(ck, 'run_frames', jobs, res, reqs)
+    # alpide statistics: model vs implementation
+    model = model_run(reqs)
+    for j, r, m in zip(jobs, res, model):
+        if r.stats is None or m['errors'] is None or not r.stats.get('alpide_stats'): continue
+        f = r.stats['alpide_stats']['readout_flags']
+        mine = f"{f['chip_trailers_seen']},{f['busy_violations']},{f['data_overrun']},{f['transmission_in_fatal']},{f['flushed_incomplete']},{f['strobe_extended']},{f['busy_transitions']}"
+        if m['kv'].get('alpide') != mine:
+            dis.append((0, 'alpide stats ' + str(j[:3]), mine, m['kv'].get('alpide')))
+    ck.corr['run_frames']['disagreements'] = len(dis)
+    report_dis(ck, 'run_frames', dis)
+    # hit-content independence on the implementation: same skeleton, re-randomised hits
+    for si in range(8 if tier == 'quick' else 200):
+        kind = R.choice(['IB', 'OL'])
+        ids = [0x20, 0x21, 0x22] if kind == 'IB' else G.OL_IDS[:14]
+        flags = [R.choice([0, 1, 2, 4, 8, 12, 14]) for _ in range(14 * 7)]
+        outs = []
+        for rep in range(2):
+            spec = []
+            for j, i in enumerate(ids):
+                if kind == 'IB': b = G.alp_chip(R, i & 0xF, 9, 14, flags=flags[j])
+                else: b = b''.join(G.alp_chip(R, c, 9, 4, flags=flags[j * 7 + c]) for c in range(7))
+                spec.append((i, b))
+            r = L.run_cli(['check', 'all', 'its-stave'], G.encode(build_frame_stream(R, kind, spec)))
+            outs.append((sorted(e[1] for e in r.errors), json.dumps(r.stats['alpide_stats'], sort_keys=True) if r.stats else None))
+        ck.case(('hits', si))
+        if outs[0] != outs[1]:
+            ck.violation('hits', {'what': 'verdict or ALPIDE statistics depend on pixel-hit content', 'a': str(outs[0])[:300], 'b': str(outs[1])[:300]})
+    ck.sample(dict(kind=jobs[0][1], variant=jobs[0][2], expected=sorted(jobs[0][3])))
+
+
+# =============================================================== C20
+def run_c20(ck, ctx):
+    R, tier = ctx['R'], ctx['tier']
+    wd = os.path.join(L.CACHE, 'tmp', f'c20_{os.getpid()}')
+    os.makedirs(wd, exist_ok=True)
+    n = 6 if tier == 'quick' else 60
+    jobs = []
+    for si in range(n):
+        pk, meta = G.conforming_stream(R, nlinks=R.randint(1, 3), layers=[3, 4, 5, 6] if si % 2 else None)
+        data = G.encode(pk)
+        walk = chain_walk(data)
+        cdps = len(walk); pht = sum((hdr_fields(h)['trig'] >> 4) & 1 for o, h, p in walk); ver = walk[0][1][0]
+        for delta in (-1, 0, 1):
+            for keys in (['cdps'], ['triggers_pht'], ['rdh_version'], ['cdps', 'triggers_pht', 'rdh_version'], []):
+                vals = dict(cdps=max(0, cdps + delta), triggers_pht=max(0, pht + delta), rdh_version=ver + delta)
+                if delta == -1 and any(vals[k] == dict(cdps=cdps, triggers_pht=pht, rdh_version=ver)[k] for k in keys): continue
+                toml = ''.join(f'{k} = {vals[k]}\n' for k in keys) + '#chip_count_ob = 7\n'
+                exp = set()
+                if delta and 'cdps' in keys: exp.add('E9001')
+                if delta and 'triggers_pht' in keys: exp.add('E9002')
+                if delta and 'rdh_version' in keys: exp.add('E10')
+                jobs.append((si, delta, tuple(keys), toml, exp, data, ['check', 'all', 'its']))
+        # chip count / order on outer-barrel lanes (stave mode)
+        if any(l['kind'] != 'IB' for l in meta['links']):
+            for cnt, orders, exp in [(7, None, set()), (6, None, {'E75'}), (8, None, {'E75'}), (None, [[0, 1, 2, 3, 4, 5, 6], [8, 9, 10, 11, 12, 13, 14]], set()),
+                                     (None, [[1, 2, 3, 4, 5, 6, 7]], {'E75'}), (7, [[0, 1, 2, 3, 4, 5, 6], [8, 9, 10, 11, 12, 13, 14]], set())]:
+                toml = (f'chip_count_ob = {cnt}\n' if cnt is not None else '') + (f'chip_orders_ob = {json.dumps(orders)}\n' if orders is not None else '')
+                jobs.append((si, 'chips', (cnt, str(orders)), toml, exp, data, ['check', 'all', 'its-stave']))
+
+    def job(j):
+        si, delta, keys, toml, exp, data, args = j
+        p = os.path.join(wd, f'c_{abs(hash((si, delta, keys, toml)))}.toml')
+        open(p, 'w').write(toml)
+        r = L.run_cli(args + ['-c', p, '-E', '7'], data)
+        base = L.run_cli(args + ['-E', '7'], data) if not toml.replace('#chip_count_ob = 7\n', '') else None
+        return r, base
+    res = L.pmap(job, jobs)
+    reqs = []
+    for j, (r, base) in zip(jobs, res):
+        si, delta, keys, toml, exp, data, args = j
+        ck.case((si, delta, keys)); ck.count('custom_' + ('chips' if delta == 'chips' else f'delta{delta}'))
+        if r.stats is None:
+            ck.violation('abnormal', {'what': 'custom checks run ended abnormally', 'exit': r.exit, 'stderr': L.ANSI.sub('', r.stderr)[-300:], 'toml': toml, 'input_hex': data.hex()}); continue
+        es = r.stats['error_stats']
+        codes = set(es['unique_error_codes'])
+        got = {'E' + c for c in codes}
+        want_codes = exp
+        spurious = got - want_codes - ({'E9003', 'E9004', 'E9005'} if 'E75' in exp or 'E74' in exp else set())
+        missing = want_codes - got
+        if missing or spurious or (r.exit == 7) != bool(exp):
+            ck.violation('custom', {'what': 'custom check verdict differs from "error iff observed != configured"', 'toml': toml, 'expected_codes': sorted(exp),
+                                    'got_codes': sorted(got), 'exit': r.exit, 'args': args, 'input_hex': data.hex()})
+        if base is not None and (base.exit != r.exit or base.errors != r.errors):
+            ck.violation('default', {'what': 'an all-default custom checks file changes the result', 'toml': toml, 'input_hex': data.hex()})
+        kv = []
+        for line in toml.split('\n'):
+            if line.startswith('cdps'): kv.append('cdps=' + line.split('=')[1].strip())
+            if line.startswith('triggers_pht'): kv.append('pht=' + line.split('=')[1].strip())
+            if line.startswith('rdh_version'): kv.append('ver=' + line.split('=')[1].strip())
+            if line.startswith('chip_count_ob'): kv.append('cnt=' + line.split('=')[1].strip())
+            if line.startswith('chip_orders_ob'): kv.append('orders=' + '|'.join('.'.join(map(str, o)) for o in json.loads(line.split('=')[1])))
+        reqs.append(f'run cmd=all target={"stave" if "its-stave" in args else "its"} E=7 {" ".join(kv)} data={G.hexs(data)}')
+    model = model_run(reqs)
+    dis = []
+    for j, (r, base), q, m in zip(jobs, res, reqs, model):
+        if r.stats is None or m['errors'] is None: continue
+        mc = set(m['raw'].split('codes=')[1].split(' ')[0].split(',')) - {''}
+        ic = {'E' + c for c in r.stats['error_stats']['unique_error_codes']}
+        if mc != ic or m['exit'] != r.exit or int(m['kv']['total']) != r.stats['error_stats']['total_errors']:
+            dis.append((0, q[:200], f'exit={r.exit} codes={sorted(ic)} total={r.stats["error_stats"]["total_errors"]}', f'exit={m["exit"]} codes={sorted(mc)} total={m["kv"]["total"]}'))
+    ck.corr['run_custom'] = dict(cases=len(reqs), disagreements=len(dis))
+    report_dis(ck, 'run_custom', dis)
+    # trigger period: E45 for exactly the consecutive internal-trigger TDH pairs whose distance mod 3564 differs from P
+    for si in range(10 if tier == 'quick' else 150):
+        P = R.choice([1, 10, 198, 3563, 500])
+        nt = R.randint(3, 12)
+        bcs, internal = [], []
+        bc = R.randint(0, 3563)
+        for t in range(nt):
+            bcs.append(bc); internal.append(1 if R.random() < 0.8 else 0)
+            bc = (bc + (P if R.random() < 0.7 else R.randint(0, 3563))) % 3564
+        # one HBF per TDH so that BC may wrap (orbit increases)
+        pk = []
+        fee = (5 << 12) | 3
+        for t in range(nt):
+            orbit = 100 + t
+            tt = 0x6a03
+            w = [G.ihw(0x3FFF), G.tdh(trig=tt & 0xFFF if internal[t] == 0 else tt & 0xFFF, internal=internal[t], nodata=1, bc=bcs[t], orbit=orbit)]
+            pk.append(G.Pkt(dict(fee=fee, link=1, orbit=orbit, bc=bcs[t], trig=tt, page=0, stop=0), w))
+            pk.append(G.Pkt(dict(fee=fee, link=1, orbit=orbit, bc=bcs[t], trig=tt, page=1, stop=1), [G.ddw0()]))
+        data = G.encode(pk)
+        r = L.run_cli(['check', 'all', 'its-stave', '-s', 'L5_3', '-p', str(P), '-E', '7'], data)
+        ck.case(('period', si)); ck.count('period_cases')
+        offs = G.offsets(pk)
+        want = []
+        prev = None
+        for t in range(nt):
+            if internal[t] and prev is not None and (bcs[t] - bcs[prev]) % 3564 != P:
+                want.append(offs[2 * t] + 64 + 10)
+            if internal[t]: prev = t
+        got = sorted(e[0] for e in r.errors if e[1] == 'E45')
+        other = [e for e in r.errors if e[1] != 'E45']
+        if got != sorted(want) or other:
+            ck.violation('period', {'what': 'trigger period errors are not reported for exactly the mismatching consecutive internal-trigger TDH pairs',
+                                    'P': P, 'bcs': bcs, 'internal': internal, 'expected_offsets': sorted(want), 'got_offsets': got, 'other_errors': other[:4],
+                                    'input_hex': data.hex()})
+    shutil.rmtree(wd, ignore_errors=True)
+    ck.sample(dict(toml=jobs[0][3], expected=sorted(jobs[0][4])))
+
+
 CHECKS = {}
+CHECKS = {
+    'C01': dict(modules=['FastPasta.Props.C10'], theorems=[], run=run_c01, needs_harness=False),
+    'C02': dict(modules=['FastPasta.Props.C10'], theorems=[], run=run_c02, needs_harness=False),
+    'C06': dict(modules=['FastPasta.Props.C18'], theorems=[], run=run_c06, needs_harness=True),
+    'C07': dict(modules=['FastPasta.Props.C18'], theorems=[], run=run_c07, needs_harness=False),
+    'C13': dict(modules=['FastPasta.Props.C18'], theorems=[], run=run_c13, needs_harness=False),
+    'C20': dict(modules=['FastPasta.Props.C18'], theorems=[], run=run_c20, needs_harness=False),
+}
